@@ -58,6 +58,7 @@ type FuncContract struct {
 	Ghost        []string
 	Opaque       bool
 	FreshResult  bool
+	FrameOnly    bool
 	used         bool
 }
 
@@ -230,6 +231,8 @@ func (cs *Contracts) loadFile(path, pkg string) error {
 					curF.Trusted = true
 				case "freshresult":
 					curF.FreshResult = true
+				case "frameonly":
+					curF.FrameOnly = true
 				default:
 					return fail("func: unknown modifier %q", extra)
 				}
